@@ -145,4 +145,54 @@ pub open spec fn resp_len_claimed(cmd: u8) -> bool { cmd != 2 && cmd != 8 && cmd
 pub open spec fn req_cmd_known(c: u8) -> bool { c <= 8 }
 pub open spec fn resp_cmd_known(c: u8) -> bool { c <= 6 || c == 8 || c == 9 }
 
+// =====================================================================================
+// reference decoder (C09), written from the property statement over raw bytes
+// =====================================================================================
+/// transport header version 1 with zero reserved bits, IC bit clear, supported message type
+pub open spec fn hdr_ok(p: Seq<u8>) -> bool {
+    p.len() >= 10 && p[4] == 1u8 && p[8] & 0x80 == 0 && mt_supported(p[8] & 0x7f)
+}
+/// the final byte equals the CRC-8 PEC of all bytes before it (C02/C03)
+pub open spec fn pec_ok(p: Seq<u8>) -> bool {
+    p.len() >= 1 && p[p.len() - 1] == crc8(p.subrange(0, p.len() - 1))
+}
+pub open spec fn is_ctrl(p: Seq<u8>) -> bool { p[8] & 0x7f == 0 }
+/// number of data bytes of a control message (bytes between the control header [+ completion code] and the PEC)
+pub open spec fn ctrl_data_len(p: Seq<u8>) -> int {
+    if is_req(p[9]) { p.len() - 12 } else { p.len() - 13 }
+}
+/// the fixed data length the command requires (0 = not checked)
+pub open spec fn ctrl_fixed_len(p: Seq<u8>) -> int {
+    if is_req(p[9]) { req_len(p[10]) } else { resp_len(p[10]) }
+}
+/// control-message conditions of C09: long enough for the control header (and completion code),
+/// a response's completion code is Success, the data length equals the fixed length where there is one
+pub open spec fn ctrl_ok(p: Seq<u8>) -> bool {
+    &&& p.len() >= 12
+    &&& (!is_req(p[9]) ==> p.len() >= 13 && p[11] == 0u8)
+    &&& (ctrl_fixed_len(p) > 0 ==> ctrl_data_len(p) == ctrl_fixed_len(p))
+}
+/// C09: the decoder accepts exactly these byte strings
+pub open spec fn decode_accepts(p: Seq<u8>) -> bool {
+    hdr_ok(p) && pec_ok(p) && (is_ctrl(p) ==> ctrl_ok(p))
+}
+/// first payload byte: after the command code (request), after the completion code (response),
+/// after the message-type byte (vendor / SPDM / secured)
+pub open spec fn payload_start(p: Seq<u8>) -> int {
+    if is_ctrl(p) { if is_req(p[9]) { 11 } else { 12 } } else { 9 }
+}
+/// the claim of C09 excludes control responses to Get Endpoint ID, Allocate Endpoint IDs, Routing Information Update
+pub open spec fn c09_claimed(p: Seq<u8>) -> bool {
+    !(hdr_ok(p) && is_ctrl(p) && p.len() >= 12 && !is_req(p[9]) && !resp_len_claimed(p[10]))
+}
+/// KNOWN FINDING D9 (recorded, C10): inputs on which decode_packet panics today
+///   D9a control request with command code above 0x08  (length table: unimplemented!())
+///   D9b Success control response with command 0x07 or above 0x09 (length table: unimplemented!())
+///   D9c control response with completion code above 0x05 (CompletionCode::from: unreachable!())
+pub open spec fn decode_known_panic(p: Seq<u8>) -> bool {
+    hdr_ok(p) && is_ctrl(p) && p.len() >= 12 && (
+        (is_req(p[9]) && !req_cmd_known(p[10]))
+        || (!is_req(p[9]) && p.len() >= 13 && (p[11] > 5 || (p[11] == 0 && !resp_cmd_known(p[10])))))
+}
+
 } // verus!
